@@ -227,7 +227,7 @@ func genWire(r *Rand, g GenCfg) Plan {
 		for i := 0; i < 24; i++ {
 			add(XStep{Op: "mutate", Tok: r.Intn(2), Codec: Pick(r, []string{"cbor", "cbor", "json"}), Kind: Pick(r, []string{"subst", "insert", "append"}), At: r.Intn(4096), Val: r.Intn(256)})
 		}
-		for _, k := range []string{"empty", "trunc", "trunc", "other_key", "iss_swapped", "foreign_header", "foreign_header", "unknown_header", "no_header", "two_payloads", "splice", "hostile_header", "hostile_header", "zero_hash", "zero_hash"} {
+		for _, k := range []string{"empty", "trunc", "trunc", "other_key", "iss_swapped", "foreign_header", "foreign_header", "unknown_header", "no_header", "two_payloads", "splice", "hostile_header", "hostile_header", "zero_hash", "zero_hash", "did_url", "did_url", "did_url"} {
 			add(XStep{Op: "sig", Tok: r.Intn(2), Kind: k, At: r.Intn(600), Val: r.Intn(256)})
 		}
 		for t := 0; t < 2; t++ {
